@@ -27,10 +27,11 @@ type TLCResult struct {
 }
 
 var (
-	reStates = regexp.MustCompile(`(\d+) states generated, (\d+) distinct states found`)
-	reDepth  = regexp.MustCompile(`The depth of the complete state graph search is (\d+)`)
-	reInv    = regexp.MustCompile(`Invariant (\S+) is violated`)
-	reProp   = regexp.MustCompile(`(?:Temporal properties were violated|Action property (\S+) is violated|Error: The postcondition)`)
+	reStates    = regexp.MustCompile(`(\d+) states generated, (\d+) distinct states found`)
+	reSimStates = regexp.MustCompile(`^The number of states generated: (\d+)`)
+	reDepth     = regexp.MustCompile(`The depth of the complete state graph search is (\d+)`)
+	reInv       = regexp.MustCompile(`Invariant (\S+) is violated`)
+	reProp      = regexp.MustCompile(`(?:Temporal properties were violated|Action property (\S+) is violated|Error: The postcondition)`)
 )
 
 // specDir copies the specification modules into a fresh TLC working directory.
@@ -85,6 +86,9 @@ func runTLC(dir, module, cfg string, workers int, timeout time.Duration, extra .
 		if m := reStates.FindStringSubmatch(line); m != nil {
 			res.Generated, _ = strconv.ParseInt(m[1], 10, 64)
 			res.Distinct, _ = strconv.ParseInt(m[2], 10, 64)
+		}
+		if m := reSimStates.FindStringSubmatch(line); m != nil && res.Generated == 0 {
+			res.Generated, _ = strconv.ParseInt(m[1], 10, 64) // simulation mode: states checked along random behaviours
 		}
 		if m := reDepth.FindStringSubmatch(line); m != nil {
 			res.Depth, _ = strconv.Atoi(m[1])
